@@ -19,6 +19,7 @@
 import CatVerif.Proofs.ParseBuf
 import CatVerif.Proofs.Mem
 import CatVerif.Proofs.Ctl
+import CatVerif.Proofs.Steps
 namespace Cat
 open St Spec
 
@@ -109,5 +110,10 @@ theorem C05_store_bound (D : Desc) (s : St) (v : VarD) (hty : v.type = .bufHex â
 
 /-- non-vacuity: "4a4B" decodes to two bytes; "\\n" inside quotes decodes to LF -/
 example : hexPairs [52, 97, 52, 66] = some [74, 75] âˆ§ unescape [97, 92, 110] = some [97, 10] := by decide
+
+/-- the dispatch of an argument to the hex-buffer and string decoders is recognised in `parse_write_args` of the
+source on every run (translator item T18) -/
+theorem C05_dispatch_generated (D : Desc) (s : St) (i : SvcIn) : parseWriteArgs D s i = Gen.parse_write_args D s i :=
+  parseWriteArgs_generated D s i
 
 end Cat
